@@ -1,4 +1,5 @@
 """C04 - the archive holds exactly the non-dominated set of everything ever offered (model-based, histories)."""
+import math
 from hypothesis import strategies as st
 
 from ..core import Clause, Violation, guard
@@ -29,7 +30,7 @@ def history(draw, max_steps=30):
                              st.sampled_from([0.1, 0.5])))
     scale = draw(st.sampled_from([1.0, 1.0, 0.5, 1e-3, 1e3]))
     width = draw(st.sampled_from([1, 2, 4]))
-    flavour = draw(st.sampled_from(["grid", "grid", "front", "front", "floats"]))
+    flavour = draw(st.sampled_from(["grid", "grid", "front", "front", "floats"] + (["nudged"] if cmpk == "pareto" else [])))
     mk_mode = draw(st.sampled_from(["same", "same", "mixed"]))
     base = draw(MARK)
     nsteps = draw(st.integers(1, max_steps))
@@ -40,6 +41,9 @@ def history(draw, max_steps=30):
             continue
         if flavour == "grid" or (flavour == "front" and m < 2):
             v = [draw(st.integers(0, width)) * scale for _ in range(m)]
+        elif flavour == "nudged":   # objective values a few (or a few thousand) ulps apart: different floats all the same
+            v = [math.nextafter(draw(st.integers(1, 1 + width)) * scale, math.inf,
+                                steps=draw(st.sampled_from([0, 0, 1, 2, 3, 64, 4000]))) for _ in range(m)]
         elif flavour == "front":   # a long antichain a + b = 8 with occasional dominators / dominated points
             a = draw(st.integers(0, 8))
             b = 8 - a + draw(st.sampled_from([0, 0, 0, 1, -1, -3]))
@@ -54,6 +58,12 @@ def history(draw, max_steps=30):
         feats = [draw(st.one_of(st.integers(0, 3).map(float), st.floats(0, 10, allow_nan=False),
                                 st.just(float("inf")))) for _ in range(nsteps)]
         trunc = {"size": draw(st.one_of(st.integers(1, 3), st.integers(1, nsteps + 2))), "feats": feats, "larger": draw(st.booleans())}
+        if draw(st.booleans()):
+            # step-wise pruning: the survivors are re-scored (as crowding distances are) and cut again by the same
+            # feature, optionally after an offer that the archive rejects
+            trunc["again"] = {"size": draw(st.integers(1, 3)), "feats": [draw(st.integers(0, 9)).__float__()
+                                                                         for _ in range(nsteps)],
+                              "reoffer": draw(st.booleans())}
     return {"cmp": cmpk, "eps": eps, "ops": ops, "perm": list(perm), "trunc": trunc,
             # design vectors: all different, or all equal (repeated / noisy evaluations of one design: members must be
             # told apart by identity, never by design-point equality)
@@ -156,16 +166,6 @@ def check_history(case):
         snap2 = sorted(tuple(o.costs_signed) for o in b2)
     if snap2 != a1 or sorted(tuple(o.costs_signed) for o in b3) != a1:
         raise Violation("archive", "merge-content", "`empty += archive` gave %r, source holds %r" % (snap2, a1))
-    with guard("archive"):
-        m_ = len(vectors[0]) - 1
-        killer = Individual([-1.0])
-        killer.costs_signed = [-1e9] * m_ + [min((v[-1] for v in vectors), key=lambda x: (x != 0, abs(x)))]
-        arch.add(killer)            # dominates everything that was offered
-        after2 = sorted(tuple(o.costs_signed) for o in b2)
-        arch.remove(killer)
-    if after2 != snap2:
-        raise Violation("archive", "merge-aliased", "an archive filled by `+=` from another archive changed (%r -> %r) when "
-                        "something was added to the source afterwards" % (snap2, after2))
     # truncate
     t = case["trunc"]
     if t is not None:
@@ -187,7 +187,40 @@ def check_history(case):
                 [p.features["f"] for p in prev], t["size"], t["larger"], gotv, vals))
         if len(prev) > t["size"]:
             classes.add("truncate-cuts")
+        ag = t.get("again")
+        if ag:
+            prev = list(arch)
+            for k, o in enumerate(prev):
+                o.features["f"] = ag["feats"][k % len(ag["feats"])]
+            with guard("truncate"):
+                if ag["reoffer"] and prev:
+                    dup = Individual([-2.0])
+                    dup.costs_signed = list(prev[0].costs_signed)
+                    if arch.add(dup):
+                        raise Violation("truncate", "duplicate-accepted-after-truncate", "a copy of a member was accepted")
+                arch.truncate(ag["size"], "f", larger_preferred=t["larger"])
+                after = list(arch)
+            vals = sorted((p.features["f"] for p in prev), reverse=t["larger"])[:ag["size"]]
+            gotv = sorted((a.features["f"] for a in after), reverse=t["larger"])
+            if gotv != vals or any(all(a is not p for p in prev) for a in after):
+                raise Violation("truncate", "second-truncate-wrong-members", "re-scored features %r, size %d, larger=%r "
+                                "kept %r expected %r" % ([p.features["f"] for p in prev], ag["size"], t["larger"], gotv, vals))
+            if len(prev) > ag["size"]:
+                classes.add("second-truncate-cuts")
+    # (last, because it empties the source archive)
+    with guard("archive"):
+        m_ = len(vectors[0]) - 1
+        killer = Individual([-1.0])
+        killer.costs_signed = [-1e9] * m_ + [min((v[-1] for v in vectors), key=lambda x: (x != 0, abs(x)))]
+        arch.add(killer)            # dominates everything that was offered
+        after2 = sorted(tuple(o.costs_signed) for o in b2)
+        arch.remove(killer)
+    if after2 != snap2:
+        raise Violation("archive", "merge-aliased", "an archive filled by `+=` from another archive changed (%r -> %r) when "
+                        "something was added to the source afterwards" % (snap2, after2))
     classes.add(case["cmp"])
+    if any(len({round(v[j], 9) for v in vectors}) < len({v[j] for v in vectors}) for j in range(len(vectors[0]) - 1)):
+        classes.add("values-few-ulps-apart")
     return {"nt": nt, "classes": sorted(classes)}
 
 
